@@ -41,6 +41,10 @@ pub struct Case {
     pub wrap: Wrap,
     /// pattern of injected `Interrupted` (only used by the `+intr` sub-checks)
     pub interrupts: Vec<bool>,
+    /// BGZF based files: insert an empty member (EOF marker block) at the member boundary selected
+    /// per-mille — the valid `cat a.bgz b.bgz` shape that noodles' own writers never produce
+    #[serde(default)]
+    pub empty_member: Option<u16>,
 }
 
 fn sizes() -> BoxedStrategy<Vec<u32>> {
@@ -191,6 +195,14 @@ fn check(drv: &dyn Driver, c: &Case, with_interrupts: bool) -> Verdict {
         Ok(b) => b,
         Err(e) => return fail1(format!("c12.baseline-write-error:{name}"), format!("writing the generated document failed: {e}")),
     };
+    let mut bytes = bytes;
+    let mut with_empty = false;
+    if let (true, Some(sel)) = (drv.is_bgzf(), c.empty_member) {
+        if let Some(b) = bgzf_walk::with_empty_member(&bytes, sel) {
+            bytes = b;
+            with_empty = true;
+        }
+    }
     let data = Arc::new(bytes);
     let (st, n_records) = compare(drv, c, with_interrupts, &data, "file written by noodles", true)?;
     // text formats: the same relation on the harness's own rendering of the document, which keeps
@@ -212,6 +224,7 @@ fn check(drv: &dyn Driver, c: &Case, with_interrupts: bool) -> Verdict {
         .label_if(matches!(c.wrap, Wrap::BufReader(_)), "bufreader-capacity")
         .label_if(n_records >= 2, "records>=2")
         .label_if(n_records == 0, "no-records")
+        .label_if(with_empty, "empty-member-mid-file")
         .label_if(raw_short > 0, "raw-text-input")
         .label_if(raw.as_ref().map(|r| r.windows(2).any(|w| w == b"\r\n")).unwrap_or(false), "raw-text-crlf")
         .label_if(raw.as_ref().map(|r| !r.is_ascii()).unwrap_or(false), "raw-text-non-ascii")
@@ -321,8 +334,8 @@ pub fn property() -> Property {
                     rule: "non-trivial = the adversary actually delivered ≥1 short read (and ≥1 Interrupted for +intr); distinct by hash of (document, script)".into(),
                     strategy: Box::new(move |tier| {
                         let d = drivers::by_name(dname).unwrap();
-                        (d.doc(tier), mode(), wrap(), proptest::collection::vec(any::<bool>(), 1..6))
-                            .prop_map(|(doc, mode, wrap, interrupts)| Case { doc, mode, wrap, interrupts })
+                        (d.doc(tier), mode(), wrap(), proptest::collection::vec(any::<bool>(), 1..6), proptest::option::weighted(0.25, 0u16..=1000))
+                            .prop_map(|(doc, mode, wrap, interrupts, empty_member)| Case { doc, mode, wrap, interrupts, empty_member })
                             .boxed()
                     }),
                     check: Box::new(move |c| {
